@@ -189,6 +189,34 @@ func init() {
 		}
 		return nil
 	}
+	intrinsics[zz+"Exists"] = func(fr *frame, args []value) value {
+		p := fr.p
+		label := argString(args[1])
+		p.obligations++
+		p.assertsSeen[label]++
+		switch c := args[0].(type) {
+		case bool:
+			if c {
+				p.discharged++
+				return nil
+			}
+		case sym:
+			switch p.solver.Check(p.tt, c.t) {
+			case Sat:
+				p.discharged++
+				return nil
+			case Unknown:
+				p.unknowns++
+				panic(pathEnd{StInconclusive, "solver unknown on existential obligation " + label})
+			}
+		}
+		r, m := p.model(nil)
+		if r != Sat {
+			panic(pathEnd{StInconclusive, "no model for failed existential obligation " + label})
+		}
+		p.pendingViolation = &Violation{Kind: "assert", Label: label, Model: m, Site: callerPos(fr), Decisions: append([]int64(nil), p.decisions...)}
+		panic(pathEnd{StViolation, label})
+	}
 	intrinsics[zz+"Cover"] = func(fr *frame, args []value) value {
 		fr.p.covers[argString(args[0])]++
 		return nil
@@ -383,6 +411,23 @@ func init() {
 		intrinsics[n] = func(fr *frame, args []value) value {
 			panic(targetPanic{iface{types.Typ[types.String], name + " called"}})
 		}
+	}
+	intrinsics["time.runtimeNano"] = func(fr *frame, args []value) value { return int64(1) }
+	intrinsics["syscall.runtime_envs"] = func(fr *frame, args []value) value { return []value(nil) }
+	intrinsics["os.runtime_args"] = func(fr *frame, args []value) value { return []value{"pkappa2"} }
+	intrinsics["os.NewFile"] = func(fr *frame, args []value) value { return (*value)(nil) }
+	intrinsics["os.Getenv"] = func(fr *frame, args []value) value { return "" }
+	intrinsics["os.LookupEnv"] = func(fr *frame, args []value) value { return tuple{"", false} }
+	intrinsics["internal/godebug.New"] = func(fr *frame, args []value) value { return (*value)(nil) }
+	intrinsics["(*internal/godebug.Setting).Value"] = func(fr *frame, args []value) value { return "" }
+	intrinsics["(*internal/godebug.Setting).IncNonDefault"] = nop
+	intrinsics["internal/bytealg.MakeNoZero"] = func(fr *frame, args []value) value {
+		n := int(asInt64(args[0]))
+		sl := make([]value, n)
+		for i := range sl {
+			sl[i] = uint8(0)
+		}
+		return sl
 	}
 	intrinsics["runtime.GOMAXPROCS"] = func(fr *frame, args []value) value { return 16 }
 	intrinsics["runtime.NumCPU"] = func(fr *frame, args []value) value { return 16 }
